@@ -290,6 +290,28 @@ def run(tier, seed):
                 if evs != ['d%d' % c['code'], 'u%d' % c['code']]:
                     oracle.append(('deflocalkeys-linux binds %r to %d but the action %r outputs %s' % (c['nm'], c['code'], c['nm'], evs),
                                    kvlib.case_text(c, it)))
+    # ---- a mouse button or wheel named anywhere in defsrc is intercepted: unless the configuration says otherwise, the Linux back
+    # end must then also grab pure mouse devices (device detect mode Any), and only then
+    try:
+        dcases = []
+        mouse = ['mlft', 'mrgt', 'mmid', 'mbck', 'mfwd', 'mwu', 'mwd', 'mwl', 'mwr']
+        for mi, mk in enumerate(mouse):
+            for pos, src in (('first', [mk, 'a', 'b']), ('middle', ['a', mk, 'b']), ('last', ['a', 'b', mk])):
+                dcases.append({'id': 'dm-%d-%s' % (mi, pos), 'sub': 'pinfo', 'cfg': '(defsrc %s)\n(deflayer base %s)' % (' '.join(src), ' '.join(src)),
+                               'hist': [], 'want': 'Some(Any)', 'what': '%s %s in defsrc' % (mk, pos)})
+        dcases.append({'id': 'dm-none', 'sub': 'pinfo', 'cfg': '(defsrc a b c)\n(deflayer base a b c)', 'hist': [], 'want': 'Some(KeyboardMice)', 'what': 'no mouse key in defsrc'})
+        dres = run_impl('pinfo', dcases)
+        for c in dcases:
+            evals += 1
+            it = dres.get(c['id']) or []
+            d = [l for l in it if l.startswith('DETECT ')]
+            if it and not it[0].startswith(('PARSE', 'REJECTED')) and d and d[0].split(' ', 1)[1].strip() != c['want']:
+                oracle.append(('%s: the derived device detect mode is %s, expected %s (mouse inputs of defsrc would not be intercepted)'
+                               % (c['what'], d[0].split(' ', 1)[1].strip(), c['want']), kvlib.case_text(c, it)))
+            elif d:
+                nontriv.add(('detect', c['id']))
+    except Exception as e:
+        broken.append(('device detect mode cases', repr(e)))
     # ---- mouse buttons: the regenerated tables must be inverse to each other (the theorem C11_mouse_button_codes_round_trip says
     # so; this names the button and the two codes when it does not)
     try:
